@@ -135,6 +135,7 @@ class Module:
         self.tree = ast.parse(self.src)
         self.classes, self.funcs, self.imports = {}, {}, {}
         self.lambdas = {}          # module-level `NAME = lambda ...`
+        self.consts = {}           # module-level `NAME = <expression>` (evaluated lazily, in the module environment)
         for node in self.tree.body:
             if isinstance(node, ast.ClassDef):
                 self.classes[node.name] = ClassVal(node, self)
@@ -143,6 +144,8 @@ class Module:
             elif isinstance(node, ast.Assign) and len(node.targets) == 1 and isinstance(node.targets[0], ast.Name) \
                     and isinstance(node.value, ast.Lambda):
                 self.lambdas[node.targets[0].id] = node.value
+            elif isinstance(node, ast.Assign) and len(node.targets) == 1 and isinstance(node.targets[0], ast.Name):
+                self.consts[node.targets[0].id] = node.value
             elif isinstance(node, ast.Import):
                 for a in node.names:
                     self.imports[a.asname or a.name.split('.')[0]] = Builtin(a.name if a.asname else a.name.split('.')[0])
@@ -375,6 +378,13 @@ class Interp:
                 return self.eval(self.mod.lambdas[n.id], {})
             if n.id in self.mod.imports:
                 return self.mod.imports[n.id]
+            if n.id in self.mod.consts:
+                # a module-level constant: evaluated in the empty (module) environment each time it is read; a value
+                # the interpreter cannot evaluate refuses as usual
+                v = self.eval(self.mod.consts[n.id], {})
+                if isinstance(v, (list, dict, set)):
+                    self.err(n, f'module-level name {n.id} holds a mutable container (global state is not modelled)')
+                return v
             if n.id in ('len', 'sum', 'zip', 'enumerate', 'range', 'isinstance', 'getattr', 'set', 'super',
                         'str', 'int', 'float', 'list', 'tuple', 'ValueError', 'NotImplementedError',
                         'RuntimeError', 'DeprecationWarning', 'FutureWarning', 'callable', 'hasattr', 'abs', 'max', 'min'):
@@ -717,7 +727,8 @@ class Interp:
         if isinstance(f, Closure):
             return self.call_function(f.node, args, kwargs, f.env, owner=f.owner)
         if isinstance(f, BoundMethod):
-            return self.call_function(f.func_node, [f.obj] + args, kwargs, {}, owner=f.owner)
+            static = any(isinstance(d, ast.Name) and d.id == 'staticmethod' for d in f.func_node.decorator_list)
+            return self.call_function(f.func_node, (args if static else [f.obj] + args), kwargs, {}, owner=f.owner)
         if isinstance(f, tuple) and f and f[0] == '%unbound':
             return self.call_function(f[3], args, kwargs, {}, owner=f[4])
         if isinstance(f, tuple) and f and f[0] == '%tmethod':
